@@ -81,6 +81,16 @@ def _explicit(ctx, w, mats, rho, ws, names, label, site, csite):
             for j in (0, 1):
                 eq(ctx, "R1", f"{k}: calculator(w, rho)[{j}] = neutron_sld(sum w_i*material_i, rho, wavelength[{j}]) (call {call_no}) [{label}]",
                    gj[j], dj[j], csite, nonzero=[rho * M])
+    # results already handed out are the caller's: a later call with other weights and density must not change them
+    # (a work array kept between calls would be seen through x.real, which is a view)
+    held = I.call(calc, [Vec(ws)], {"density": rho})
+    I.call(calc, [Vec(list(ws[1:]) + [ws[0]])], {"density": 3 * rho})
+    for k, g, dj in zip(names, held, zip(*direct)):
+        gj = list(g.items) if isinstance(g, Vec) else [g, g]
+        for j in (0, 1):
+            if len(gj) == 2:
+                eq(ctx, "R1", f"{k}[{j}]: a result handed out earlier is unchanged by a later call with other weights [{label}]",
+                   gj[j], dj[j], csite, nonzero=[rho * M])
 
 
 def run(ctx):
@@ -150,7 +160,7 @@ def run(ctx):
             eq(ctx, "R1", f"{k}: zero weights drop their material [{label}]", g, d, csite,
                nonzero=[rho * I.getattr(tz, "mass")])
         ctx.unit("functions_inlined", len(set(I.calls)))
-    ctx.floor("R1", 45)
+    ctx.floor("R1", 51)
     ctx.floor("R2", 2)
     # _sum_piece is the per-compound loop of neutron_scattering (same four sums)
     w, lam, mats = _setup(ctx, False)
